@@ -32,7 +32,7 @@ tvars == <<ref, g, tid, l, status, w>>
 
 ASSUME \A t \in 1..Len(Logs) : TLCSet(t, <<0, "ok">>)
 
-BigCap == 1000000
+BigCap == 1000000000      \* run-length ghosts are effectively uncapped in trace validation (45 M cycles = 360 ms at 125 MHz)
 
 OutFields == <<"lr", "eu0", "txi", "term", "rxd", "slfps", "stseq", "teq", "sts1", "sts2",
                "rhot", "rnscr", "scr", "pidle", "loopb", "inv">>
